@@ -220,10 +220,23 @@ func relm(m map[int]int) { fmt.Println("d", len(m), m[0]) }
 
 func printg() { fmt.Println("g", g0, g1, t.a, t.b, arr[0], arr[1]) }
 
+// pv, []int and map[int]int carry the value of an explicit panic (values that cannot be compared)
+type pv struct {
+	n int
+	s []int
+}
+
 func show(x interface{}) {
-	if n, ok := x.(int); ok {
-		fmt.Println("rec", n)
-	} else {
+	switch v := x.(type) {
+	case int:
+		fmt.Println("rec", v)
+	case []int:
+		fmt.Println("rec", v[0])
+	case pv:
+		fmt.Println("rec", v.n)
+	case map[int]int:
+		fmt.Println("rec", v[0])
+	default:
 		fmt.Println("rec", "fault")
 	}
 }
@@ -845,7 +858,17 @@ func (r *rend) stmt(s *N) {
 			r.line("defer %s(%s)", s.Form, s.S)
 		}
 	case "panic":
-		r.line("panic(%s)", Expr(s.E))
+		// the value travels as an int or inside a value that cannot be compared (the model's value is the int)
+		switch style.pick(6) {
+		case 3:
+			r.line("panic([]int{%s})", Expr(s.E))
+		case 4:
+			r.line("panic(pv{%s, nil})", Expr(s.E))
+		case 5:
+			r.line("panic(map[int]int{0: %s})", Expr(s.E))
+		default:
+			r.line("panic(%s)", Expr(s.E))
+		}
 	case "fault":
 		alts := faultForms[s.Kind]
 		r.line("{ %s }", alts[style.pick(len(alts))])
